@@ -42,7 +42,7 @@ fn strategy(wire: bool) -> BoxedStrategy<Case> {
     (
         host,
         prop_oneof![Just(None), (1024u16..65535).prop_map(Some)],
-        prop_oneof![Just("".to_string()), Just("/announce".to_string()), Just("/".to_string()), "(/[a-z0-9]{1,6}){1,3}", Just("/announce.php".to_string())],
+        prop_oneof![Just("".to_string()), Just("/announce".to_string()), Just("/".to_string()), "(/[a-z0-9]{1,6}){1,3}", Just("/announce.php".to_string()), Just("/announce/".to_string()), Just("/a/b/".to_string())],
         prop_oneof![3 => Just(None), 1 => Just(Some(vec![])), 3 => vec(kv, 1..3).prop_map(Some)],
         prop_oneof![3 => 0u64..5_000_000, 1 => prop::sample::select(vec![0u64, 1, 1 << 32, 1 << 40, (1 << 32) - 1])],
         "[A-Za-z0-9]{20}",
